@@ -39,7 +39,9 @@ def population_script(pop, how, n):
     sc.append({'op': 'server_stop', 'how': how, 'tag': 'stop'})
     for i, c in enumerate(pop):
         var = 'w%d' % i
-        sc += [{'op': 'poll_wait', 'var': var, 'within': 10, 'tag': 'wait%d' % i, 'stop_on_hang': False},
+        # first only look (wait() would itself close an idle persistent worker gracefully), then wait() must agree at once
+        sc += [{'op': 'poll_dead', 'var': var, 'timeout': 10, 'tag': 'dead%d' % i},
+               {'op': 'poll_wait', 'var': var, 'within': 10, 'tag': 'wait%d' % i, 'stop_on_hang': False},
                {'op': 'get', 'var': var, 'attr': 'has_error', 'tag': 'he%d' % i},
                {'op': 'get', 'var': var, 'attr': 'result', 'tag': 'res%d' % i},
                {'op': 'get', 'var': var, 'attr': 'error', 'tag': 'err%d' % i}]
@@ -66,6 +68,10 @@ def judge_population(pop, how, sc, obs):
     if not stop.get('server_gone'):
         bad.append(('server-process-still-there', stop))
     for i, c in enumerate(pop):
+        dd = t.get('dead%d' % i, {})
+        if dd.get('ret') is not True:
+            bad.append(('parent-does-not-find-out/%s' % c, dd))
+            continue
         w = t.get('wait%d' % i, {})
         if w.get('hang') or w.get('s', 0) > 16:
             bad.append(('parent-blocks-in-wait/%s' % c, w))
